@@ -133,6 +133,7 @@ type replayFile struct {
 	Sources   map[string]string `json:"sources"`   // declaration as rendered (for the reader)
 	Generated map[string]string `json:"generated"` // what the generator emitted when the violation was found (for the reader)
 	Events    []string          `json:"events"`
+	Minimised string            `json:"minimised,omitempty"`
 }
 
 // Run is the quick / thorough command of one engine-A property.
@@ -182,18 +183,41 @@ func Run(prop, tier string) int {
 					sp, pdir = p.spec, p.dir
 				}
 			}
+			generated := map[string]string{}
+			for _, f := range sp.DeclFiles() {
+				band := strings.TrimSuffix(f, ".go") + "_band.go"
+				if b, err := os.ReadFile(pdir + "/" + band); err == nil {
+					generated[band] = string(b)
+				}
+			}
+			known := false
+			for _, f := range out.Findings {
+				if f.Sig == v.Signature {
+					known = true
+				}
+			}
+			minNote := ""
+			if !known && os.Getenv("VERIF_NO_PROGRAM_MIN") == "" {
+				before := len(sp.Injectors[0].Flatten())
+				for i := range sp.Injectors {
+					if sp.Injectors[i].Name == v.Case.Injector {
+						before = len(sp.Injectors[i].Flatten())
+					}
+				}
+				if msp, mv, builds := e.minimiseProgram(prop, seed, runs, sp, v); msp != nil && mv != nil {
+					minNote = fmt.Sprintf("declaration minimised from %d to %d provider expressions in %d rebuilds", before, usesOf(msp), builds)
+					sp, v = msp, *mv
+					generated = map[string]string{"(regenerate with ./vc replay)": "the minimised declaration is regenerated by the replay command"}
+				}
+			}
 			rf := replayFile{Engine: "bandsim", Property: prop, Signature: v.Signature, Detail: v.Detail, Case: v.Case, LogHash: v.LogHash, Spec: sp, Sources: map[string]string{}, Generated: map[string]string{}}
 			for name, src := range sp.Files() {
 				if strings.HasPrefix(name, "k") {
 					rf.Sources[name] = src
 				}
 			}
-			for _, f := range sp.DeclFiles() {
-				band := strings.TrimSuffix(f, ".go") + "_band.go"
-				if b, err := os.ReadFile(pdir + "/" + band); err == nil {
-					rf.Generated[band] = string(b)
-				}
-			}
+			rf.Generated = generated
+			rf.Minimised = minNote
 			for _, ev := range v.Events {
 				rf.Events = append(rf.Events, fmt.Sprintf("%d t=%dns thread%d %s %s", ev.Seq, ev.Time, ev.Thread, ev.Kind, ev.Detail))
 			}
